@@ -304,6 +304,40 @@ def RmwCfg.step (threads : List Update) (c : RmwCfg) : RmwStep → RmwCfg
 def runInterleaved (threads : List Update) (sched : List RmwStep) (m : PortMapping) : PortMapping :=
   (sched.foldl (RmwCfg.step threads) ⟨m, []⟩).record
 
+/-! ## The source-node side of a forwarded target (`CrossNodeListener.handleTargetReady`)
+
+`forwardToSourceNode` sends `EncodeTargetReadyMessage(req.TunnelID, nodeID)` = `tunnelID|nodeID`; the node that holds
+the bridge decodes it (`DecodeTargetReadyMessage`: split at the LAST `|`, nothing trimmed) and attaches the forwarded
+connection to `tunnelBridges[decoded id]`.  No mapping is compared there: everything rests on the tunnel id the
+target node authorised being the tunnel id the source node looks up.  (internal/protocol/session/crossnode/frame.go,
+cross_node_listener.go) -/
+
+def encodeTargetReady (tunnelID nodeID : List Char) : List Char := tunnelID ++ '|' :: nodeID
+
+/-- split at the last `|` -/
+def decodeTargetReady : List Char → Option (List Char × List Char)
+  | [] => none
+  | c :: cs =>
+    match decodeTargetReady cs with
+    | some (a, b) => some (c :: a, b)
+    | none => if c == '|' then some ([], cs) else none
+
+/-- the bridges of the source node: (tunnel id, mapping id) -/
+abbrev Bridges := List (List Char × String)
+
+def Bridges.lookup (bs : Bridges) (tunnelID : List Char) : Option String :=
+  (bs.find? (fun b => b.1 == tunnelID)).map (·.2)
+
+/-- `handleTargetReady`: the mapping of the bridge the forwarded connection is attached to (`none`: no such bridge). -/
+def handleTargetReady (bs : Bridges) (payload : List Char) : Option String :=
+  match decodeTargetReady payload with
+  | some (tunnelID, _) => bs.lookup tunnelID
+  | none => none
+
+/-- a decoder that trims white space around the payload first (what must NOT be done: the id is client-chosen) -/
+def decodeTargetReadyTrimmed (payload : List Char) : Option (List Char × List Char) :=
+  decodeTargetReady ((payload.dropWhile Char.isWhitespace).reverse.dropWhile Char.isWhitespace).reverse
+
 /-- The dispatcher as found (before the repair): an existing bridge or a waiting route is served *before*
 any credential check, for whatever connection names the tunnel id.  Kept to state the witnesses. -/
 def openTunnelAsFound (w : World) (id : ConnIdent) (req : Req) (ts : TunnelState) : Outcome :=
